@@ -9,7 +9,7 @@ add("C19", "model_checking",
 add("C20", "model_checking",
     "explicit TLA+ specification of the loader (ModLoad.tla, with the global loading_module and the per-call prior modelled explicitly) model-checked with TLC against the ordering contract (ModLoadContract.tla), bound to src/module.c by running every case on the real daemon with stub modules (eight variants: each of the optional module_constructor / module_post_init / module_destructor present or absent) and validating each event log with TLC (ModLoadTrace.tla)",
     "TLC model-checks the transcribed loader against the contract for every dependency graph, listing and missing-module choice on <=3 modules, with the hook profile as part of every case (post-init, destructor, and - for modules that declare nothing - constructor). Quick uses paired post-init/destructor profiles plus every set of constructor-less helpers: 12 795 cases, 3.1e5 states. Thorough adds every profile triple, every call order, all 4 096 4-module graphs and drawn graphs up to 6 modules: 1.0e7 states. Every case is run on the real daemon (15 286 start-ups quick, up to 4.2e5 thorough); TLC validates each event log and exit status against the contract and against the model's prediction (DRIFT). Four model mutants (D12, NoPostNoMark, NoDtorNoUnlink, NoCtorNoRestore) and 12 corrupted real logs are re-checked on every run.",
-    "Exhaustive for the stated bounds on the model. Order requirements relate only events that exist, over the transitive dependency closure restricted to modules that have the hook; a constructor-less dependency counts as constructed once loaded. On a bad case a post-init of a module off the cycle that ran before the loop was detected is not blamed. Edges declared from the other end with module_antidepends are part of the dependency relation for post-init and destructor order (consistent declarations only); module_is_backend is outside the contract. A start-up that ends in a crash status (signal, sanitizer, time limit) is no orderly abort.",
+    "Exhaustive for the stated bounds on the model. Order requirements relate only events that exist, over the transitive dependency closure restricted to modules that have the hook; a constructor-less dependency counts as constructed once loaded. On a bad case a post-init of a module off the cycle that ran before the loop was detected is not blamed. Edges declared from the other end with module_antidepends are part of the dependency relation for post-init and destructor order (the construction sentence exempts a dependency whose own constructor encloses the module's); module_is_backend is outside the contract. A start-up that ends in a crash status (signal, sanitizer, time limit) is no orderly abort.",
     "DESIGN.md 6 (C20), 5.3, 13")
 
 add("C12", "model_checking",
